@@ -136,6 +136,9 @@ type routeCase struct {
 	SASL bool `json:"sasl,omitempty"`
 	// BootstrapDown: no broker is reachable when the Transport is first used; the step "bootstrap_up" ends the outage.
 	BootstrapDown bool `json:"bootstrap_down,omitempty"`
+	// InternalTopic: the cluster also has the topic "__consumer_offsets" (two partitions on the first broker), which the
+	// brokers flag as internal.  Only metadata steps name it: cached metadata has to show it like any other topic.
+	InternalTopic bool `json:"internal_topic,omitempty"`
 }
 
 // ---------------------------------------------------------------------------
@@ -842,6 +845,13 @@ func execute(c routeCase) *result {
 			cl.MoveLeader(t.Name, int32(p), l)
 		}
 		w.names = append(w.names, t.Name)
+	}
+	if c.InternalTopic {
+		it := cl.CreateTopic("__consumer_offsets", 2)
+		cl.Lock()
+		it.Internal = true
+		cl.Unlock()
+		w.names = append(w.names, "__consumer_offsets")
 	}
 	for _, s := range c.Steps {
 		if s.Op == "create" || s.Op == "metadata_wire" { // validate-only creations too: below v1 the flag does not exist and the topic is created
